@@ -1,6 +1,6 @@
 """What MANIFEST.json claims (kept apart from the check logic)."""
 TECHNIQUE = "Lean 4 proof over hand-written executable model + differential correspondence with the Go implementation"
-HOOK_COMMITS = ["6d567af", "1215bca"]
+HOOK_COMMITS = ["6d567af", "1215bca", "9d3f334"]
 NOTES = ("See DESIGN.md. Every check: lake build of the property module + axiom audit, harness rebuilt from /repo working "
          "tree with -tags verif, corpus + generated cases judged by the compiled Lean driver (model output and monitor predicate).")
 DEFAULT_NA = "machinery under construction in this round (design in DESIGN.md §6); not yet claimed"
@@ -8,6 +8,8 @@ NOT_YET = {}
 _TB = ("Trusted: Lean kernel + propext/Classical.choice/Quot.sound; hand-written models (checked against the code by the "
        "correspondence engine on every run, not assumed); generators and canonicalisers. ")
 ENGINES = [
+    {"name": "nopanic", "path": "go/cmd/corr/nopanic.go", "serves_properties": ["C07"],
+     "kind_free_text": "robustness: registry-driven configurations + byte mutations + random API call sequences under recover() and a watchdog"},
     {"name": "http", "path": "go/cmd/corr/httpeng.go", "serves_properties": ["C18"],
      "kind_free_text": "differential: scripted handlers behind the real net/http middleware vs the Lean interceptor model"},
     {"name": "decode", "path": "go/cmd/corr/decode.go", "serves_properties": ["C03"],
@@ -87,6 +89,15 @@ CLAIMED = {
              "unbuffered responses pass through byte-exact. Tied to /repo by `http` (real WrapHandler behind httptest).",
         note=_TB + "Partial: net/http itself (Content-Length enforcement, HTTP/2, hijacking) is outside the model.",
         ref="6/C18", engine="http"),
+    "C07": dict(
+        text="Lean 4: every modelled unit is a total function (termination checked by Lean), and for the sites whose safety "
+             "is arithmetic or nil-ness the Go operation is modelled as partial and proved never to fail: the body-write slice "
+             "for every limit incl. non-positive ones set by ctl (with the pre-fix version refuted), macro expansion over "
+             "variables without a collection, SecRuleRemoveByMsg over rules without msg, macro compilation. Tied to /repo by "
+             "`nopanic`: registry-driven configuration and traffic generation under recover() and a watchdog, plus a corpus of "
+             "past panic shapes.",
+        note=_TB + "Partial: units without a Lean model are covered by the harness only; hangs by watchdog.",
+        ref="6/C07", engine="nopanic"),
     "C09": dict(
         text="Lean 4 theorems: the state after a link is the left fold of 'update MATCHED_*, then run every non-disruptive "
              "action once' over exactly the link's matches, in order (so once per match, macros expanded at that moment); "
